@@ -165,7 +165,7 @@ AEAD_encrypt(AEADObject *self, PyObject *args)
     if (!PyArg_ParseTuple(args, "y#y#K", &data, &data_len, &associated, &associated_len, &pn))
         return NULL;
 
-    if (data_len > PACKET_LENGTH_MAX) {
+    if (data_len > PACKET_LENGTH_MAX - AEAD_TAG_LENGTH) {
         PyErr_SetString(CryptoError, "Invalid payload length");
         return NULL;
     }
@@ -296,7 +296,18 @@ HeaderProtection_apply(HeaderProtectionObject *self, PyObject *args)
     if (!PyArg_ParseTuple(args, "y#y#", &header, &header_len, &payload, &payload_len))
         return NULL;
 
+    if (header_len < 1 || header_len > PACKET_LENGTH_MAX ||
+        payload_len > PACKET_LENGTH_MAX - header_len) {
+        PyErr_SetString(CryptoError, "Invalid packet length");
+        return NULL;
+    }
+
     int pn_length = (header[0] & 0x03) + 1;
+    if (header_len < pn_length ||
+        payload_len < PACKET_NUMBER_LENGTH_MAX - pn_length + SAMPLE_LENGTH) {
+        PyErr_SetString(CryptoError, "Invalid packet length");
+        return NULL;
+    }
     int pn_offset = header_len - pn_length;
 
     res = HeaderProtection_mask(self, payload + PACKET_NUMBER_LENGTH_MAX - pn_length);
